@@ -50,3 +50,47 @@ Theorem c04_pairs_are_the_composition : forall p hs, c04_hyps hs = true ->
       ~ fed hs s /\ ~ consumed hs t /\ (b = true -> parent_is KTable t = true) /\ composed hs s t.
 Proof. exact c04_main. Qed.
 Print Assumptions c04_pairs_are_the_composition.
+
+(** * The property itself, end to end, on the tree model (Tree/ScriptExact.v): Lemma B composed with the composition theorem.
+    For every SCRIPT (any number of statements, any order, cycles allowed) of statements of the Lemma-B fragment with
+    resolved column references, analysed without metadata, with any trivia between tokens: the whole pipeline of the model
+    - extractors on the rendered trees, statement loop with session registration, assembly, path enumeration - reports
+    exactly the pairs (a, b) where b is reachable from a through one or more of the statements' specified column flows
+    ([spec_flows], Ast/Spec.v), a is written by no statement's flow and b is read by none.  Corollaries: the two-statement
+    chain of the property text, the dead end at the intermediate table, statement order is irrelevant, and a script whose
+    every source column is also a target reports nothing (K-C04-2 is what the composition says about cycles).
+    [resolved_only] is needed: [Tree.ScriptExact.Examples.unq_single_needed] (K-C04-1). *)
+From SV Require Import Tree.Render Tree.LemmaA Tree.LemmaAProofs Tree.LemmaB Tree.LemmaBProofs Tree.ScriptExact.
+From Coq Require Import Permutation.
+
+Theorem c04_script_exact_on_core : forall noise e ss,
+  noise_ok noise = true -> env_ok e = true ->
+  Forall (fun s => stmt_ok s = true /\ sshape s = true /\ colshape s = true /\ sel_tables_syntactic s = true /\ resolved_only s = true) ss ->
+  script_pairs e false [] (map (r_stmt noise) ss) = spec_script_pairs (e_cfg e) ss.
+Proof. exact script_exact_on_core. Qed.
+Print Assumptions c04_script_exact_on_core.
+
+Theorem c04_script_pair_iff : forall noise e ss x,
+  noise_ok noise = true -> env_ok e = true -> Forall core_stmt ss ->
+  let E := script_edges (e_cfg e) ss in
+  In x (script_pairs e false [] (map (r_stmt noise) ss)) <->
+  exists a b, ~ In a (map snd E) /\ ~ In b (map fst E) /\ tcv E a b /\ x = (show_vtx a ++ ">" ++ show_vtx b)%string.
+Proof. exact script_pair_iff. Qed.
+Print Assumptions c04_script_pair_iff.
+
+Theorem c04_chain_of_two_statements : forall noise e s1 s2 a b c,
+  noise_ok noise = true -> env_ok e = true -> core_stmt s1 -> core_stmt s2 ->
+  let E := script_edges (e_cfg e) [s1; s2] in
+  In (a, b) (stmt_edges (e_cfg e) s1) -> In (b, c) (stmt_edges (e_cfg e) s2) ->
+  ~ In a (map snd E) -> ~ In c (map fst E) ->
+  In (show_vtx a ++ ">" ++ show_vtx c)%string (script_pairs e false [] [r_stmt noise s1; r_stmt noise s2]).
+Proof. exact chain_two. Qed.
+Print Assumptions c04_chain_of_two_statements.
+
+Theorem c04_dead_end_at_intermediate_table : forall noise e s1 s2 a b,
+  noise_ok noise = true -> env_ok e = true -> core_stmt s1 -> core_stmt s2 ->
+  let E := script_edges (e_cfg e) [s1; s2] in
+  In (a, b) (stmt_edges (e_cfg e) s1) -> ~ In a (map snd E) -> ~ In b (map fst E) ->
+  In (show_vtx a ++ ">" ++ show_vtx b)%string (script_pairs e false [] [r_stmt noise s1; r_stmt noise s2]).
+Proof. exact dead_end_two. Qed.
+Print Assumptions c04_dead_end_at_intermediate_table.
